@@ -20,6 +20,7 @@ import (
 	"errors"
 	"fmt"
 	"io"
+	"math"
 	"os"
 	"sort"
 	"sync"
@@ -80,7 +81,9 @@ type write struct {
 }
 
 type inode struct {
-	cache   []byte  // what reads see
+	cache   []byte  // what reads see (written extent only; zeros up to size)
+	size    int64   // logical file length (>= len(cache)): preallocation is sparse
+	dsize   int64   // durable logical length
 	disk    []byte  // what survives power loss
 	pending []write // un-synced writes, in order
 	// preSize is the preallocated size recorded at Create; until first file sync
@@ -215,7 +218,10 @@ func (fs *FS) Create(dir, name string, size uint64) (types.WritableFile, error) 
 		fs.CreateDup = append(fs.CreateDup, name)
 		return nil, fmt.Errorf("simfs: create %s: %w", name, os.ErrExist)
 	}
-	ino := &inode{cache: make([]byte, size)}
+	if size > math.MaxInt32 {
+		return nil, fmt.Errorf("simfs: maximum file size is %d bytes", math.MaxInt32)
+	}
+	ino := &inode{size: int64(size)}
 	fs.cur[name] = ino
 	ino.handles++
 	return &handle{fs: fs, ino: ino, name: name, writable: true}, nil
@@ -314,6 +320,9 @@ func (h *handle) WriteAt(p []byte, off int64) (int, error) {
 		h.ino.cache = append(h.ino.cache, make([]byte, end-int64(len(h.ino.cache)))...)
 	}
 	copy(h.ino.cache[off:], data)
+	if end > h.ino.size {
+		h.ino.size = end
+	}
 	h.ino.pending = append(h.ino.pending, write{off, data})
 	return n, err
 }
@@ -329,17 +338,26 @@ func (h *handle) ReadAt(p []byte, off int64) (int, error) {
 	}
 	h.reads++
 	if h.fs.ReadBudget != nil {
-		if b := h.fs.ReadBudget(h.name, len(h.ino.cache)); b > 0 && h.reads > b {
-			panic(fmt.Sprintf("SIMFS-READ-BUDGET: %d reads on one handle of %s (size %d)", h.reads, h.name, len(h.ino.cache)))
+		if b := h.fs.ReadBudget(h.name, int(h.ino.size)); b > 0 && h.reads > b {
+			panic(fmt.Sprintf("SIMFS-READ-BUDGET: %d reads on one handle of %s (size %d)", h.reads, h.name, h.ino.size))
 		}
 	}
 	if off < 0 {
 		return 0, errors.New("simfs: negative offset")
 	}
-	if off >= int64(len(h.ino.cache)) {
+	if off >= h.ino.size {
 		return 0, io.EOF
 	}
-	n := copy(p, h.ino.cache[off:])
+	n := len(p)
+	if int64(n) > h.ino.size-off {
+		n = int(h.ino.size - off)
+	}
+	for i := 0; i < n; i++ {
+		p[i] = 0
+	}
+	if off < int64(len(h.ino.cache)) {
+		copy(p[:n], h.ino.cache[off:])
+	}
 	if n < len(p) {
 		return n, io.EOF
 	}
@@ -359,6 +377,7 @@ func (h *handle) Sync() error {
 		return os.ErrClosed
 	}
 	h.ino.disk = append(h.ino.disk[:0:0], h.ino.cache...)
+	h.ino.dsize = h.ino.size
 	h.ino.pending = nil
 	h.ino.synced = true
 	first := !h.synced
@@ -427,14 +446,18 @@ func (fs *FS) ReadFile(name string) ([]byte, bool) {
 	if !ok {
 		return nil, false
 	}
-	return append([]byte(nil), i.cache...), true
+	b := append([]byte(nil), i.cache...)
+	if int64(len(b)) < i.size && i.size <= 64<<20 {
+		b = append(b, make([]byte, i.size-int64(len(b)))...)
+	}
+	return b, true
 }
 
 // WriteFile installs a file with the given content as fully durable (test setup / fuzzing).
 func (fs *FS) WriteFile(name string, content []byte) {
 	fs.mu.Lock()
 	defer fs.mu.Unlock()
-	ino := &inode{cache: append([]byte(nil), content...), disk: append([]byte(nil), content...), synced: true}
+	ino := &inode{cache: append([]byte(nil), content...), disk: append([]byte(nil), content...), synced: true, size: int64(len(content)), dsize: int64(len(content))}
 	fs.cur[name] = ino
 	fs.dur[name] = ino
 }
@@ -585,7 +608,7 @@ func (fs *FS) Pending() PendingInfo {
 	for _, n := range names {
 		ino := fs.inodeLocked(n)
 		if len(ino.pending) > 0 || !ino.synced {
-			pf := PendingFile{Name: n, NewFile: !ino.synced, CacheLen: len(ino.cache), DiskLen: len(ino.disk)}
+			pf := PendingFile{Name: n, NewFile: !ino.synced, CacheLen: int(ino.size), DiskLen: int(ino.dsize)}
 			for _, w := range ino.pending {
 				pf.Chunks += len(chunksOf(w))
 			}
@@ -755,11 +778,16 @@ func (fs *FS) PowerLoss(t Tear) *FS {
 				i++
 			}
 		}
-		// length: never-synced files may keep the full cached (preallocated) length
-		if t.LenFull && len(img) < len(ino.cache) {
-			img = append(img, make([]byte, len(ino.cache)-len(img))...)
+		// logical length: durable length, extended by kept chunks; never-synced
+		// (or extended) files may keep their full cached (preallocated) length
+		isz := ino.dsize
+		if int64(len(img)) > isz {
+			isz = int64(len(img))
 		}
-		ni := &inode{cache: img, disk: append([]byte(nil), img...), synced: true}
+		if t.LenFull && isz < ino.size {
+			isz = ino.size
+		}
+		ni := &inode{cache: img, disk: append([]byte(nil), img...), synced: true, size: isz, dsize: isz}
 		nf.cur[n] = ni
 		nf.dur[n] = ni
 	}
@@ -790,7 +818,7 @@ func (fs *FS) Clone() *FS {
 		if c, ok := m[i]; ok {
 			return c
 		}
-		c := &inode{cache: append([]byte(nil), i.cache...), disk: append([]byte(nil), i.disk...), synced: i.synced}
+		c := &inode{cache: append([]byte(nil), i.cache...), disk: append([]byte(nil), i.disk...), synced: i.synced, size: i.size, dsize: i.dsize}
 		for _, w := range i.pending {
 			c.pending = append(c.pending, write{w.off, append([]byte(nil), w.data...)})
 		}
@@ -825,6 +853,7 @@ func (fs *FS) Quiesce() {
 	defer fs.mu.Unlock()
 	for _, i := range fs.cur {
 		i.disk = append(i.disk[:0:0], i.cache...)
+		i.dsize = i.size
 		i.pending = nil
 		i.synced = true
 	}
